@@ -147,6 +147,19 @@ func genFramesSmall(g *G, n int) []can.Frame {
 	return out
 }
 
+// emitValidateBoundary: Frame.Validate at every boundary the notion "valid frame" rests on (properties that speak of
+// valid frames or of frames passing validation emit these lines first)
+func emitValidateBoundary(g *G) {
+	for _, id := range []uint32{0, 1, 0x7fe, 0x7ff, 0x800, 0x801, 0x1ffffffe, 0x1fffffff, 0x20000000, 0x20000001, 0x7fffffff, 0x80000000, 0xffffffff} {
+		for _, ln := range []int{0, 1, 7, 8, 9, 16, 255} {
+			for _, fl := range [][2]string{{"0", "0"}, {"0", "1"}, {"1", "0"}, {"1", "1"}} {
+				g.Emit("val %d %d %s %s", id, ln, fl[0], fl[1])
+			}
+		}
+	}
+	g.Tag("validate-boundary")
+}
+
 func genC06(g *G) {
 	g.Emit("consts")
 	for _, f := range genFrames(g, true) {
